@@ -425,7 +425,9 @@ Definition offers_pk (t : dtype) (e : entry) : list (pkkey * N) :=
 
 (* Discipline of the caller (core/fetcher) and of the deadliner (property C16), needed for
    uniqueness ACROSS expiry: every entry of a set stored for duty (t, sl) is about slot sl, and
-   a duty the deadliner has emitted is never Scheduled again. *)
+   a duty the deadliner has emitted never gets the VERDICT Scheduled again (checked at [LAdd], the
+   instant of the verdict; that the write belongs to the same atomic step is the store's own job
+   and is part of the model / monitor, see [xcheck]). *)
 Definition entry_slots_ok (sl : N) (e : entry) : bool :=
   match e with
   | EAtt _ dslot slot _ _ _ _ _ => N.eqb dslot sl && N.eqb slot sl
